@@ -193,6 +193,16 @@ func setup(o *common.Opts) *env {
 	// two XA databases: a server that detaches prepared branches (>= 8.0.29) with a tuned pool, and an
 	// older one behind a handle with database/sql's default pool (2 idle connections)
 	e.xa = []*xaDB{openXA("stressxa30", "8.0.30", 8), openXA("stressxa28", "8.0.28", 0)}
+	for _, x := range e.xa {
+		// the coordinator's early time-outs are tied to what the databases see: XA START of a branch
+		x.srv.SetObserver(func(en memsql.Entry) {
+			if en.Class == "xa_start" && en.Err == "" {
+				if i := strings.LastIndex(en.XAID, "-"); i > 0 {
+					e.co.earlyTimeout(strings.TrimSuffix(en.XAID[:i], ",")) // "<xid>,-<branch id>" (gtrid, bqual)
+				}
+			}
+		})
+	}
 	// The table-meta cache is one per database *type* and every sql.Open replaces it by one that reads
 	// from the handle just opened: the AT handle has to be the last one opened, or AT statements look for
 	// their tables on the XA servers.
@@ -315,7 +325,13 @@ func (e *env) measure() measure {
 	}
 	rm.GetRmCacheInstance().GetResourceManager(branch.BranchTypeXA).GetCachedResources().Range(func(_, v interface{}) bool {
 		if res, ok := v.(*sqlpkg.DBResource); ok {
-			res.GetKeeper().Range(func(_, _ interface{}) bool { m.xaheld++; return true })
+			res.GetKeeper().Range(func(k, _ interface{}) bool {
+				m.xaheld++
+				if debug {
+					fmt.Fprintf(os.Stderr, "xa held: %v\n", k)
+				}
+				return true
+			})
 		}
 		return true
 	})
